@@ -34,6 +34,7 @@ def plan(tier, seed):
 
 def floors(tier):
     f = {"checked/%s" % e: 30 for e in ENTRY}
+    f.update({"compared/%s" % e: 20 for e in ENTRY if not e.startswith("seedfree")})
     f.update({"clause/concurrent-same-seed": 300, "concurrent_yield_injections": 10000, "clause/fresh-process": 50, "clause/same-int-seed": 1500, "clause/global-state-untouched": 1500, "clause/same-randomstate": 1200, "clause/seed-free-repeat": 100,
               "seed_sensitive": 1000})
     return f
@@ -359,6 +360,11 @@ def _run_case(case, ctx):
     except np.linalg.LinAlgError:
         ctx.skip("singular problem")
         return
+    except (ValueError, IndexError, ZeroDivisionError, FloatingPointError) as e:
+        # a seeded call that raises produces nothing to compare; whether it should raise belongs to other properties. The floor on
+        # seed_sensitive + the per-entry floors keep an entry point that always raises from passing silently.
+        ctx.skip("%s raised %s: nothing to compare" % (entry, type(e).__name__))
+        return
     if desc.get("seed_free"):
         ctx.count("clause/seed-free-repeat")
         ctx.nontriv(desc)
@@ -391,6 +397,7 @@ def _run_case(case, ctx):
             ctx.violation("C16:estimator_refit:%s-differs:%s" % (which_, desc["kind"]), "estimator %s built with random_state=%d: the %s gives a different fit than the first fit" % (desc["kind"], seed, which_), desc)
             return
     ctx.count("clause/same-int-seed")
+    ctx.count("compared/%s" % entry)
     if out1 != out2:
         ctx.violation("C16:%s:same-int-seed:any" % entry, "two calls with random_state=%d returned different results after the global generator was reseeded" % seed, desc)
         return
